@@ -26,6 +26,10 @@ import (
 
 var procsList = []int{1, 2, 5}
 
+// decoder counts outside the documented range: New takes any int, Start clamps n < 1 to 1, so 0
+// and negative counts must behave like one decoder (fresh and resumed scanners alike)
+var oddProcs = []int{0, -1, -7}
+
 type file struct {
 	seed   int64
 	desc   *pbfgen.FileDesc
@@ -443,7 +447,7 @@ func main() {
 		byFilter = false
 		// the same reader object reused for the restart (a few files: reads are slowed down)
 		if i%5 == 0 && len(f.desc.Blocks) >= 3 {
-			c, err := sharedCase(w, r, f, procsList[(i/5)%3])
+			c, err := sharedCase(w, r, f, append(append([]int{}, procsList...), oddProcs...)[(i/5)%6])
 			if err != nil {
 				fail(err)
 			}
@@ -451,14 +455,20 @@ func main() {
 		}
 		// more decoders than the channel budget (10/procs = 0: unbuffered channels), also for the
 		// resumed scanners
-		{
-			p := []int{11, 16, 32}[i%3]
+		for _, p := range []int{[]int{11, 16, 32}[i%3], oddProcs[i%3]} {
 			c, err := stopsCase(w, r, f, p, skips[0])
 			if err != nil {
 				fail(err)
 			}
 			w.Add(c)
 			w.Count(fmt.Sprintf("procs=%d", p))
+			if p < 1 {
+				c, err = traceCase(w, r, f, p, skips[(i/3)%len(skips)])
+				if err != nil {
+					fail(err)
+				}
+				w.Add(c)
+			}
 		}
 	}
 	// canaries
